@@ -144,6 +144,10 @@ class Registry:
             "mu_0": Q(self.mu0, _d(L=1, M=1, T=-2, I=-2), SR(1)), "mu0": Q(self.mu0, _d(L=1, M=1, T=-2, I=-2), SR(1)),
             "Phi_0": Q(self.phi0, _d(L=2, M=1, T=-2, I=-1), SR(1)),
             "dimensionless": Q(1, _d(), SR(1)),
+            # SI derived units (exact definitions): siemens = A^2 s^3 / (kg m^2), volt = kg m^2 / (A s^3)
+            "siemens": Q(1, _d(L=-2, M=-1, T=3, I=2), SR(1)), "S": Q(1, _d(L=-2, M=-1, T=3, I=2), SR(1)),
+            "volts": Q(1, _d(L=2, M=1, T=-3, I=-1), SR(1)), "volt": Q(1, _d(L=2, M=1, T=-3, I=-1), SR(1)), "V": Q(1, _d(L=2, M=1, T=-3, I=-1), SR(1)),
+            "second": Q(1, _d(T=1), SR(1)),
         }
         assume(self.mu0 > 0, self.phi0 > 0)
 
